@@ -334,42 +334,74 @@ func calleeShortName(c *ssa.CallCommon) string {
 	return "dyn"
 }
 
-// callSite finds the k-th call (in source order) of the root function whose callee is called `name`
-// (name may omit the package qualifier).
-func (x *Exec) callSite(name string, k int) ssa.CallInstruction {
+// callSite finds the k-th call (in source order) whose callee is called `name` (name may omit the package
+// qualifier) among the calls of the root function and, through calls of module functions that have no contract
+// (they are verified through their bodies), the calls those make. For a call of the root function itself the
+// instruction is returned and key is ""; for a call inside an inlined callee, key identifies it by the chain of call
+// positions leading to it.
+func (x *Exec) callSite(name string, k int) (ssa.CallInstruction, string) {
 	type site struct {
-		pos token.Pos
-		ord int
-		ins ssa.CallInstruction
+		chain []token.Pos
+		ord   int
+		ins   ssa.CallInstruction
 	}
 	var sites []site
 	n := 0
-	for _, b := range x.fn.Blocks {
-		for _, ins := range b.Instrs {
-			ci, ok := ins.(ssa.CallInstruction)
-			if !ok {
-				continue
-			}
-			if _, isCall := ins.(*ssa.Call); !isCall {
-				continue
-			}
-			sn := calleeShortName(ci.Common())
-			if sn == name || strings.HasSuffix(sn, "."+name) {
-				sites = append(sites, site{ci.Pos(), n, ci})
-				n++
+	var walk func(fn *ssa.Function, chain []token.Pos, depth int)
+	walk = func(fn *ssa.Function, chain []token.Pos, depth int) {
+		for _, b := range fn.Blocks {
+			for _, ins := range b.Instrs {
+				ci, ok := ins.(*ssa.Call)
+				if !ok {
+					continue
+				}
+				here := append(append([]token.Pos{}, chain...), ci.Pos())
+				sn := calleeShortName(ci.Common())
+				if sn == name || strings.HasSuffix(sn, "."+name) {
+					sites = append(sites, site{here, n, ci})
+					n++
+					continue
+				}
+				if sc := ci.Common().StaticCallee(); sc != nil && depth < 3 && sc.Parent() == nil && len(sc.Blocks) > 0 {
+					if pp := fnPkg(sc); pp != nil {
+						if pk, ok := x.w.ByPath[pp.Pkg.Path()]; ok && pk.Contracts.Funcs[ContractKey(sc)] == nil {
+							walk(sc, here, depth+1)
+						}
+					}
+				}
 			}
 		}
 	}
+	walk(x.fn, nil, 0)
+	less := func(a, b []token.Pos) bool {
+		for i := 0; i < len(a) && i < len(b); i++ {
+			if a[i] != b[i] {
+				return a[i] < b[i]
+			}
+		}
+		return len(a) < len(b)
+	}
 	sort.SliceStable(sites, func(i, j int) bool {
-		if sites[i].pos != sites[j].pos {
-			return sites[i].pos < sites[j].pos
+		if less(sites[i].chain, sites[j].chain) || less(sites[j].chain, sites[i].chain) {
+			return less(sites[i].chain, sites[j].chain)
 		}
 		return sites[i].ord < sites[j].ord
 	})
 	if k < 0 || k >= len(sites) {
-		return nil
+		return nil, ""
 	}
-	return sites[k].ins
+	if len(sites[k].chain) == 1 {
+		return sites[k].ins, ""
+	}
+	return sites[k].ins, posChainKey(sites[k].chain)
+}
+
+func posChainKey(chain []token.Pos) string {
+	var sb strings.Builder
+	for _, p := range chain {
+		fmt.Fprintf(&sb, "%d/", int(p))
+	}
+	return sb.String()
 }
 
 // regOrArbitrary: the value of an SSA register in st; a register not computed on the path is arbitrary.
